@@ -103,7 +103,9 @@ class Nodes:
             else:
                 new_node = new_type(new_value)
 
-            fold_at = [x.start() for x in re.finditer(' ', new_node)]
+            # (no fold is possible at a blank which ends the text)
+            fold_at = [x.start() for x in re.finditer(' ', new_node)
+                       if x.start() < len(new_node) - 1]
             new_node.fold_pos = fold_at # type: ignore
 
         elif valform == YAMLValueFormats.LITERAL:
